@@ -21,7 +21,8 @@ commutative ring / linearly ordered field.
 A gradient block of any tensor rank enters the compressed branch with the preconditioned axis
 first (loop invariant of `_precondition_block`); `tensordot(g, ·, axes=[[0],[0]])` and the cyclic
 `transpose` only see the row-major view `(d, n)` with `n` the product of the other dimensions, so
-one step is a map `Mat α d n → Mat α n d`, and `blockLoop` re-views the flat data after every step.
+one step is a map `Mat α d n → Mat α n d`, and `blockLoop` re-views the flat data (an `Array`,
+tabulated after every step) after every step.
 -/
 import PrecondVerif.Model.Shapes
 
@@ -40,14 +41,6 @@ namespace Mat
 variable {m n : Nat}
 
 def transpose (A : Mat α m n) : Mat α n m := fun j i => A i j
-
-/-- tabulate (identity; keeps evaluation polynomial) -/
-def force (A : Mat α m n) : Mat α m n :=
-  let rows : Vector (Vector α n) m := Vector.ofFn fun i => Vector.ofFn fun j => A i j
-  fun i j => rows[i][j]
-
-@[simp] theorem force_eq (A : Mat α m n) : force A = A := by
-  funext i j; simp [force]
 
 end Mat
 
@@ -133,7 +126,7 @@ def lowRankUnpack [Zero α] [BEq α] {d r : Nat} (h : r + 2 < d) (P : Mat α d (
 def applyPacked [Add α] [Sub α] [Mul α] [Zero α] {d r n : Nat}
     (V : Mat α d r) (e : Vec α r) (c : α) (skip : Bool) (G : Mat α d n) : Mat α n d :=
   -- lowrank_basis = jnp.tensordot(g, eigvecs, axes=[[0], [0]])
-  let lb : Mat α n r := Mat.force fun t q => sumFin d fun i => G i t * V i q
+  let lb : Mat α n r := fun t q => sumFin d fun i => G i t * V i q
   -- lowrank_component = jnp.tensordot(lowrank_basis, eigvecs, axes=[[rank - 1], [1]])
   let lc : Mat α n d := fun t b => sumFin r fun q => lb t q * V b q
   -- g = jnp.transpose(g, axes=roll)
@@ -218,14 +211,22 @@ def size : List Nat → Nat
   | [a] => a
   | a :: b :: l => a * size (b :: l)
 
+/-- tabulate the first `n` entries of flat data.  The result is *data* (an `Array`), so it is
+computed once; a function-valued "memo" would be recomputed at every access by the compiler's
+eta-expansion.  This keeps the evaluation of `blockLoop` polynomial. -/
+def tab (n : Nat) (t : Nat → α) : Array α := Array.ofFn (n := n) fun i => t i.val
+
+/-- read flat data (zero outside) -/
+def rd [Zero α] (a : Array α) : Nat → α := fun k => a.getD k 0
+
 /-- `_precondition_block`: `ops` has one entry per axis; `shape` is the current shape (the axis
-being processed is first and moves to the end), `t` the flat row-major data. -/
+being processed is first and moves to the end), `a` the flat row-major data of the block. -/
 def blockLoop [Zero α] (step : AxisOp α → (d n : Nat) → Mat α d n → Mat α n d) :
-    List (AxisOp α) → List Nat → (Nat → α) → (Nat → α)
-  | op :: ops, s0 :: rest, t =>
+    List (AxisOp α) → List Nat → Array α → Array α
+  | op :: ops, s0 :: rest, a =>
     blockLoop step ops (rest ++ [s0])
-      (unview (size rest) s0 (Mat.force (step op s0 (size rest) (view s0 (size rest) t))))
-  | _, _, t => t
+      (tab (size rest * s0) (unview (size rest) s0 (step op s0 (size rest) (view s0 (size rest) (rd a)))))
+  | _, _, a => a
 
 def preconditionBlock [Add α] [Sub α] [Mul α] [Zero α] [BEq α] :=
   blockLoop (α := α) stepPacked
